@@ -45,7 +45,11 @@ pub struct History {
     pub dangling_reversal: Vec<RevOut>,
     pub intermediates: usize,
     pub password: u64,
+    /// status informations of every successful reservation (Sim::status_script): "R", "NR", "RN", "XR", ...
+    #[serde(default)]
+    pub status_script: Option<String>,
 }
+pub const STATUS_SCRIPTS: [&str; 8] = ["R", "NR", "RN", "XR", "RNN", "XNR", "NRN", "XRN"];
 
 #[derive(Clone, Debug, PartialEq)]
 pub enum ExpReq {
@@ -228,6 +232,7 @@ pub fn scenario_of(h: &History) -> (Scenario, Vec<ExpCall>) {
     sc.sim.receipts = h.receipts.clone();
     sc.sim.dangling = h.dangling;
     sc.sim.intermediates = h.intermediates;
+    sc.sim.status_script = h.status_script.clone();
     if h.intermediates == 2 {
         // receipt chatter (print line + print text block) inside every exchange that allows it
         sc.sim.chatter = chatter_packets(&crate::table()).iter().map(|p| hex(p)).collect();
@@ -420,8 +425,9 @@ fn history_strategy() -> impl Strategy<Value = History> {
         proptest::collection::vec(prop_oneof![4 => Just(RevOut::Completion), 1 => any::<u8>().prop_map(RevOut::Abort)], 1..3),
         0usize..3,
         prop_oneof![Just(123456u64), Just(0), Just(999_999), 0u64..=999_999],
+        prop_oneof![2 => Just(0usize), 3 => 1usize..STATUS_SCRIPTS.len()],
     )
-        .prop_map(|(max, tokens, receipts, dangling, steps, eod, dangling_reversal, intermediates, password)| History { max, tokens, receipts, dangling, steps, eod, dangling_reversal, intermediates, password })
+        .prop_map(|(max, tokens, receipts, dangling, steps, eod, dangling_reversal, intermediates, password, script)| History { max, tokens, receipts, dangling, steps, eod, dangling_reversal, intermediates, password, status_script: if script == 0 { None } else { Some(STATUS_SCRIPTS[script].to_string()) } })
 }
 
 pub fn run(prop: &'static str, tier: Tier) -> i32 {
@@ -441,6 +447,7 @@ pub fn run(prop: &'static str, tier: Tier) -> i32 {
         dangling_reversal: if prop == "C19" && k % 5 == 4 { vec![RevOut::Abort(0xb5)] } else { vec![RevOut::Completion] },
         intermediates: k % 2,
         password: 123456,
+        status_script: if k % 3 == 0 { None } else { Some(STATUS_SCRIPTS[(k / 3) % STATUS_SCRIPTS.len()].to_string()) },
     };
     // bounded-exhaustive histories: every outcome combination up to `d_out`, success-only up to `d_succ`
     let (d_out, d_succ) = tier.pick((3usize, 4usize), (4, 5));
@@ -481,7 +488,7 @@ pub fn run(prop: &'static str, tier: Tier) -> i32 {
     if prop == "C19" {
         for code in 0..=255u8 {
             for dang in [None, Some(77u64)] {
-                let h = History { max: 1, tokens: tokens3.clone(), receipts: vec![55], dangling: dang, steps: vec![HOp::Begin { tok: 0, out: BeginOut::Success }, HOp::Commit { tok: 0, amount: 5, out: RevOut::Completion }], eod: vec![RevOut::Abort(code), RevOut::Completion], dangling_reversal: vec![RevOut::Completion], intermediates: 0, password: 4711 };
+                let h = History { max: 1, tokens: tokens3.clone(), receipts: vec![55], dangling: dang, steps: vec![HOp::Begin { tok: 0, out: BeginOut::Success }, HOp::Commit { tok: 0, amount: 5, out: RevOut::Completion }], eod: vec![RevOut::Abort(code), RevOut::Completion], dangling_reversal: vec![RevOut::Completion], intermediates: 0, password: 4711, status_script: None };
                 stats.case(true, fnv(&serde_json::to_vec(&h).unwrap()));
                 stats.class("end-of-day-abort-code");
                 ctx.record(check_history(prop, &h), &mut stats);
